@@ -138,7 +138,7 @@ func execC09c(w *c09cW, x *Exec) *Outcome {
 	if cfg.MaxSteps == 0 {
 		cfg.MaxSteps = 4000000
 	}
-	ixExtraWindows = nil
+	ixExtraWindows, ixStallUs, ixFailCommitDisk = nil, 0, nil
 	var viol *Violation
 	res := x.Bubble(cfg, func(s *simrt.Sim) func() bool {
 		disk := simkv.NewDisk()
